@@ -56,7 +56,7 @@ REQUIRED = ["trees", "length_checked", "branch_features_checked", "path_features
             "frontend_requeried", "feature_queries_in_random_order",
             "populations_of_trees_with_one_source",
             "single_node_trees", "root_is_tip_or_one_child", "tap_sholl_get", "tap_features_get"]
-FLOOR = {"quick": 500, "thorough": 10000}
+FLOOR = {"quick": 500, "thorough": 40000}
 SHARDS = {"quick": 8, "thorough": 16}
 TIMEOUT = {"quick": 400, "thorough": 3000}
 TOL = 1e-4
@@ -447,7 +447,7 @@ def run(ctx):
     geoms = ["growth", "plane", "gauss", "far", "int", "pythag", "pythag", "coincident", "axis", "big",
              "tiny", "micro"]
     with tap:
-        for k in range(ctx.scale(900, 18000)):
+        for k in range(ctx.scale(900, 72000)):
             if k % 12 == 11:
                 m = int(rng.integers(1, 7))
                 rcs = []
